@@ -45,7 +45,7 @@ def gen_cases(tier, seed):
                 "smat": sm, "pmat": ["P", "centring", "centring"][rng.integers(3)],
                 "regime": ["short", "long"][rng.integers(2)],
                 "full": bool(rng.integers(2)), "store_dense_svecs": bool(rng.integers(2)),
-                "qseed": int(rng.integers(10 ** 6)), "frac": float(rng.uniform(0.55, 1.6)),
+                "qseed": int(rng.integers(10 ** 6)), "frac": float(rng.uniform(0.55, 1.6)), "_threads": [1, 2, 3, 5, 7, 16][int(rng.integers(6))], 
                 "_cost": nu * setup.det3(sm),
             })
     return cases
